@@ -15,6 +15,8 @@ from lib import Err, err_of
 
 import lxml.etree as ET
 
+import os
+RUN = os.getpid()      # case-file tags are per process: concurrent runs of the same check do not collide
 IMP = "From V Require Import Model.SerExs Model.XmlRead."
 XSI = "http://www.w3.org/2001/XMLSchema-instance"
 XMI = "http://www.omg.org/XMI"
@@ -379,7 +381,7 @@ def run(chk: lib.Check):
     # raw control characters cannot come from lxml but _escape handles them: include the class members
     for c in list(range(0, 32)) + [127]:
         ecases.append(((0, "a" + chr(c) + "b"), exs._escape("a" + chr(c) + "b")))
-    chk.correspond(IMP, "w_escape", ecases, tag="C01_escape")
+    chk.correspond(IMP, "w_escape", ecases, tag=f"C01_escape_{RUN}")
     # escape -> XML decoding by lxml (the reader's unescape stand-in) : round trip on the implementation
     ucases = []
     for s in strs:
@@ -392,7 +394,7 @@ def run(chk: lib.Check):
             chk.violation(f"escape-roundtrip:{s!r}", f"_escape({s!r}) = {esc!r} is read back by lxml as {back!r}", {"string": s, "escaped": esc})
         ucases.append((esc, s))
         chk.note_case(("esc", s), nontrivial=esc != s)
-    chk.correspond(IMP, "w_unescape", ucases, tag="C01_unescape")
+    chk.correspond(IMP, "w_unescape", ucases, tag=f"C01_unescape_{RUN}")
     tcases = []
     for s in strs[:60] + ["a\nb", "\nx", "x\n", "a\n\nb\nccc", "]]>\n]]>"]:
         for pos in (0, 7, 83):
@@ -405,13 +407,13 @@ def run(chk: lib.Check):
                         kw = {"pattern": re.compile(">")}
                     p2 = exs._serialize_text(buf, s or None, encoding="utf-8", errors="strict", pos=pos, multiline=ml, **kw)
                     tcases.append(((s or None, pos, ml, k), [buf.getvalue(), p2]))
-    chk.correspond(IMP, "w_ser_text", tcases, tag="C01_text")
+    chk.correspond(IMP, "w_ser_text", tcases, tag=f"C01_text_{RUN}")
     prefixes = ["xmi", "xsi", "a", "B", "org.polarsys.capella.core.data.la", "libraries", "xm", "xmi2", "xs", "é", "Requirements", "CapellaRequirements", "_x", "0"]
     ncases = []
     for _ in range(40 if quick else 400):
         l = rng.sample(prefixes, rng.randrange(0, len(prefixes)))
         ncases.append((l, [k for k, _ in sorted([(p, "u") for p in l], key=exs._ns_sortkey)]))
-    chk.correspond(IMP, "w_ns_sorted", ncases, tag="C01_nssort")
+    chk.correspond(IMP, "w_ns_sorted", ncases, tag=f"C01_nssort_{RUN}")
 
     lap('functions')
     # ---------------- (2) corpus: load -> save must reproduce every fragment byte for byte
@@ -503,7 +505,7 @@ def run(chk: lib.Check):
         else:
             big.append((f, root, ll))
     chk.coverage["corpus_attrs_near_wrap_column"] = near
-    chk.correspond(IMP, "w_file", fcases, tag="C01_file", shard=1,
+    chk.correspond(IMP, "w_file", fcases, tag=f"C01_file_{RUN}", shard=1,
                    describe=lambda i: {"fragment": fcases[i][0][0]})
     # large fragments: subtrees through _serialize_element (sharded), every spine element's attributes
     sub_limit = 8_000 if quick else 50_000
@@ -534,7 +536,7 @@ def run(chk: lib.Check):
             except Exception as ex:  # noqa: BLE001
                 outv = err_of(ex)
             scases.append(([xmlenc.enc_parent(e), xmlenc.enc_elem(e, e.getparent().nsmap), d, 2 * d, ll], outv))
-    chk.correspond(IMP, "w_elem", scases, tag="C01_elem", shard=(40 if quick else 12))
+    chk.correspond(IMP, "w_elem", scases, tag=f"C01_elem_{RUN}", shard=(40 if quick else 12))
     ucorr = []
     for e, d in (acases if not quick else acases[:120]):
         par = e.getparent()
@@ -546,7 +548,7 @@ def run(chk: lib.Check):
         except Exception as ex:  # noqa: BLE001
             outv = err_of(ex)
         ucorr.append(([xmlenc.enc_parent(e), shallow], outv))
-    chk.correspond(IMP, "w_unmapped", ucorr, tag="C01_unmapped", shard=100)
+    chk.correspond(IMP, "w_unmapped", ucorr, tag=f"C01_unmapped_{RUN}", shard=100)
     chk.coverage["corpus_correspondence"] = {"whole_fragments": len(fcases), "subtrees": len(scases), "spine_elements": len(ucorr)}
 
     lap('corpus_correspondence')
@@ -615,9 +617,9 @@ def run(chk: lib.Check):
                 body = b1.decode("utf-8").split("?>\n", 1)[1]
                 rcases.append((body, [lxml_view(t2), "\n"]))
     lap('generated_oracles')
-    chk.correspond(IMP, "w_doc", dcases, tag="C01_doc", shard=40,
+    chk.correspond(IMP, "w_doc", dcases, tag=f"C01_doc_{RUN}", shard=40,
                    describe=lambda i: {"written": dcases[i][1].decode("utf-8", "replace")[:1500] if isinstance(dcases[i][1], bytes) else repr(dcases[i][1])})
-    chk.correspond(IMP, "w_read_sem", rcases, tag="C01_read", shard=40)
+    chk.correspond(IMP, "w_read_sem", rcases, tag=f"C01_read_{RUN}", shard=40)
     lap('generated_correspondence')
     chk.coverage["generated_trees"] = kinds
     chk.coverage["columns_before_attribute_70_90"] = dict(sorted(hist.items(), key=lambda kv: int(kv[0])))
